@@ -42,8 +42,8 @@ Print Assumptions c07_instance_meets_contract.
    protocols, the listener's stream reports the same ID, exactly one closure
    got the dialer's bytes, and it is the FIRST entry of the listener's table
    (registration order, a re-registration moving to the end) accepting it *)
-Theorem c07_agreement : forall c t kn b reqs extra race b' r,
-  open1_i c t kn b reqs extra race = (b', r) -> obtained r = true ->
+Theorem c07_agreement : forall c t kn b reqs extra race allow b' r,
+  open1_i c t kn b reqs extra race allow = (b', r) -> obtained r = true ->
   In (o_dp r) reqs /\ o_lp r = o_dp r /\ o_ninv r = 1 /\ o_hreg r = o_h r /\ o_hlp r = o_dp r /\
   o_un r = [] /\
   exists pre h post, t = pre ++ h :: post /\ h_reg h = o_h r /\
@@ -55,9 +55,9 @@ Print Assumptions c07_agreement.
    without the nonce), nothing stays charged or held; the open itself fails
    unless the protocol was taken optimistically from earlier knowledge, and
    then the first use fails *)
-Theorem c07_no_common_fails_no_handler : forall c t kn b reqs extra race b' r,
+Theorem c07_no_common_fails_no_handler : forall c t kn b reqs extra race allow b' r,
   (forall q, In q reqs -> supports t q = false) ->
-  open1_i c t kn b reqs extra race = (b', r) ->
+  open1_i c t kn b reqs extra race allow = (b', r) ->
   obtained r = false /\ o_ninv r = 0 /\ o_un r = [] /\ same_counts b b' /\
   (o_res r <> 0 \/ (o_use r = 0 /\ memz (o_dp r) kn = true)).
 Proof. exact no_common_i. Qed.
@@ -78,8 +78,8 @@ Print Assumptions c07_removed_handler_never_runs.
    sides (exactly one more stream there, nothing anywhere else, both scopes
    had accepted the charge); a stream that was not obtained leaves both
    sides' counts as they were *)
-Theorem c07_scope_charged_to_negotiated : forall c t kn b reqs extra race b' r,
-  open1_i c t kn b reqs extra race = (b', r) ->
+Theorem c07_scope_charged_to_negotiated : forall c t kn b reqs extra race allow b' r,
+  open1_i c t kn b reqs extra race allow = (b', r) ->
   if obtained r
   then b_out b' = upd (b_out b) (o_dp r) (b_out b (o_dp r) + 1) /\
        b_in b' = upd (b_in b) (o_lp r) (b_in b (o_lp r) + 1) /\
@@ -99,12 +99,12 @@ Proof. exact scopes_count_held_i. Qed.
 Print Assumptions c07_scopes_count_held_streams.
 
 (* ---- non-vacuity ------------------------------------------------------------ *)
-Definition nolim : cfg := mkCfg (fun _ => -1) (fun _ => -1).
+Definition nolim : cfg := mkCfg (fun _ => -1) (fun _ => -1) false.
 
 (* a reachable obtained stream through SelectOneOf (second proposal, match
    function handler registered first wins over the exact one) *)
 Example obtained_by_select :
-  let tr := trace_i 4 nolim init_st [OAddMatch 0 [1; 2]; OAdd 1; OBatch [([3; 1], [], false)]] in
+  let tr := trace_i 4 nolim init_st [OAddMatch 0 [1; 2]; OAdd 1; OBatch [mkReq [3; 1] [] false false]] in
   match nth 2 tr (OAdd 0, ObMux []) with
   | (_, ObBatch [r] _ kn _) => obtained r = true /\ o_dp r = 1 /\ o_h r = 0 /\ kn = [1]
   | _ => False
@@ -115,7 +115,7 @@ Proof. vm_compute. repeat split. Qed.
    succeeds, the first use fails, no handler runs although another requested
    protocol is served *)
 Example stale_knowledge_first_use_fails :
-  let tr := trace_i 4 nolim init_st [OAdd 0; OAdd 1; OKnow [0; 1]; ORemove 0; OBatch [([0; 1], [], false)]] in
+  let tr := trace_i 4 nolim init_st [OAdd 0; OAdd 1; OKnow [0; 1]; ORemove 0; OBatch [mkReq [0; 1] [] false false]] in
   match nth 4 tr (OAdd 0, ObMux []) with
   | (_, ObBatch [r] un _ _) => o_res r = 0 /\ o_dp r = 0 /\ o_use r = 0 /\ o_ninv r = 0 /\ un = []
   | _ => False
@@ -125,29 +125,29 @@ Proof. vm_compute. repeat split. Qed.
 (* the monitor rejects: listener stream reports another protocol *)
 Example monitor_rejects_wrong_protocol :
   monitor_case [7; 0; 0; 2; -1; -1; -1; -1;  1; 0; 1; 0;
-                5; 1; 1; 0;  0; 0; 1; 0; 1; 1; 0; 1;  0;  1; 0;  0; 0; 0; 0] <> [].
+                5; 1; 0; 1; 0;  0; 0; 1; 0; 1; 1; 0; 1;  0;  1; 0;  0; 0; 0; 0] <> [].
 Proof. vm_compute. discriminate. Qed.
 
 (* ... a removed handler ran *)
 Example monitor_rejects_removed_handler :
   monitor_case [7; 0; 0; 2; -1; -1; -1; -1;  1; 0; 1; 0;  3; 0; 0;
-                5; 1; 1; 0;  0; 0; 1; 0; 0; 1; 0; 0;  0;  1; 0;  0; 0; 0; 0] <> [].
+                5; 1; 0; 1; 0;  0; 0; 1; 0; 0; 1; 0; 0;  0;  1; 0;  0; 0; 0; 0] <> [].
 Proof. vm_compute. discriminate. Qed.
 
 (* ... the same trace with the handler still registered is accepted *)
 Example monitor_accepts_registered_handler :
   monitor_case [7; 0; 0; 2; -1; -1; -1; -1;  1; 0; 1; 0;
-                5; 1; 1; 0;  0; 0; 1; 0; 0; 1; 0; 0;  0;  1; 0;  0; 0; 0; 0] = [].
+                5; 1; 0; 1; 0;  0; 0; 1; 0; 0; 1; 0; 0;  0;  1; 0;  0; 0; 0; 0] = [].
 Proof. vm_compute. reflexivity. Qed.
 
 (* ... nothing in common, unknown listener, yet NewStream returned a stream *)
 Example monitor_rejects_stream_without_common_protocol :
   monitor_case [7; 0; 0; 2; -1; -1; -1; -1;  1; 0; 1; 0;
-                5; 1; 1; 1;  0; 1; 0; -1; -1; 0; -1; -1;  0;  0;  0; 0; 0; 0] <> [].
+                5; 1; 0; 1; 1;  0; 1; 0; -1; -1; 0; -1; -1;  0;  0;  0; 0; 0; 0] <> [].
 Proof. vm_compute. discriminate. Qed.
 
 (* ... stream obtained but the listener's scope for the protocol not charged *)
 Example monitor_rejects_uncharged_scope :
   monitor_case [7; 1; 1; 2; -1; -1; -1; -1;  1; 0; 1; 0;
-                5; 1; 1; 0;  0; 0; 1; 0; 0; 1; 0; 0;  0;  1; 0;  1; 0; 0; 0] <> [].
+                5; 1; 0; 1; 0;  0; 0; 1; 0; 0; 1; 0; 0;  0;  1; 0;  1; 0; 0; 0] <> [].
 Proof. vm_compute. discriminate. Qed.
